@@ -225,6 +225,20 @@ def steps(tier, ops=None, with_limit=False, tag="", pick=None, cfg="default"):
     return o
 
 
+def protocol_cases(tier):
+    """set_protocol between the special schemes (case split on the scheme the state starts from): values of 2, 4 and 5
+    bytes cover ws / wss / file / http / https in any letter case, on states that carry a port or credentials - the situations in
+    which the protocol setter must drop a port equal to the new default or refuse the change (file with credentials/port).
+    Thorough tier only (several minutes per case)."""
+    o = []
+    if tier == Q:
+        return o
+    for t, n, m in ((5, 10, 2), (4, 10, 2), (3, 8, 4), (2, 9, 4), (0, 9, 5), (3, 10, 5), (6, 8, 4)):
+        d = {"N": n, "M": m, "BN": 15, "KERNEL": "F_vk_st_set_protocol", "OP_SET_PROTOCOL": 1, "SH_TYPE": t, "SH_OPAQUE": 0, "SH_HASH": 0, "SH_SEARCH": 0}
+        _step_obl(o, "set_protocol", "vk_st_set_protocol", n, m, d, f"_t{t}x", "", False, "default", tier)
+    return o
+
+
 HEAVY_OPS = ("set_search", "set_hash", "set_pathname", "set_protocol", "set_host", "set_hostname")
 
 
@@ -322,7 +336,7 @@ def prop_C07(tier):
 
 
 def prop_C03(tier):
-    return steps(tier, ops=("set_username", "set_password", "set_port", "set_search", "set_hash", "set_pathname", "set_protocol", "update_search") + EDITOR_OPS, pick=PICK_C03)
+    return steps(tier, ops=("set_username", "set_password", "set_port", "set_search", "set_hash", "set_pathname", "set_protocol", "update_search") + EDITOR_OPS, pick=PICK_C03) + protocol_cases(tier)
 
 
 def prop_C09(tier):
